@@ -80,6 +80,7 @@ class Network:
         self.held = []  # entries withheld by the interceptor ('hold'): (entry, headers)
         self.pre_handle = None
         self.post_handle = None
+        self.async_stall = None  # coroutine function(client, path) awaited before a delivery of the asynchronous client
         self.response_rewriter = None  # callable(entry, response bytes) -> bytes: the peer answers something equivalent
         self._lock = threading.RLock()
         self._port = 40000
@@ -337,6 +338,21 @@ class _FakeAsyncResponse:
         return False
 
 
+class _LazyAsyncResponse(_FakeAsyncResponse):
+    """The request goes out when the `async with` block is entered; NET.async_stall (a coroutine function) can hold one
+    delivery back without blocking the event loop - a peer that is slow to answer."""
+
+    def __init__(self, client, path, data, headers):
+        super().__init__(None, None, None)
+        self._args = (client, path, data, headers)
+
+    async def __aenter__(self):
+        if NET.async_stall is not None:
+            await NET.async_stall(self._args[0], self._args[1])
+        self.status, self.reason, self._content = NET.deliver_post(*self._args)
+        return self
+
+
 class _FakeSession:
     def __init__(self, client):
         self._client = client
@@ -344,8 +360,7 @@ class _FakeSession:
     def post(self, path, data=None, headers=None):
         headers = dict(headers or {})
         headers.setdefault('Host', self._client.netloc)
-        status, reason, content = NET.deliver_post(self._client, path, data, headers)
-        return _FakeAsyncResponse(status, reason, content)
+        return _LazyAsyncResponse(self._client, path, data, headers)
 
     async def close(self):
         return None
